@@ -17,7 +17,7 @@ func (w *World) initModels() {
 		mt := types.NewMap(types.Typ[types.String], types.NewSlice(types.Typ[types.String]))
 		d, v := c.mapHeaps(mt)
 		h, _ := c.memHeap(types.Typ[types.String])
-		return []havocTarget{{d, "", ""}, {v, "", ""}, {"MapLen", "", ""}, {h, "", ""}, {allocHeap, "", ""}}
+		return []havocTarget{{d, "", "", ""}, {v, "", "", ""}, {"MapLen", "", "", ""}, {h, "", "", ""}, {allocHeap, "", "", ""}}
 	}
 	// http.Header is map[string][]string keyed by the canonical form of the
 	// field name (uninterpreted function canonHeader, idempotent).
@@ -42,15 +42,7 @@ func (w *World) initModels() {
 	w.modelTargets["net/http.(Header).Set"] = hdrTargets
 	w.models["net/http.(Header).Get"] = func(f *Frame, args []Val, rt types.Type, st *State, pos token.Pos) Val {
 		c := f.c
-		m, k := args[0], args[1]
-		mt := m.Typ.Underlying().(*types.Map)
-		key := canon(c, k.T)
-		d, vh := c.mapHeaps(mt)
-		dom := and(not(eq(m.T, "0")), "(select (select "+c.heapGet(st, d, c.heapSort[d])+" "+m.T+") "+key+")")
-		sl := "(select (select " + c.heapGet(st, vh, c.heapSort[vh]) + " " + m.T + ") " + key + ")"
-		h, srt := c.memHeap(types.Typ[types.String])
-		first := "(select (select " + c.heapGet(st, h, srt) + " (sl.base " + sl + ")) (sl.off " + sl + "))"
-		t := c.name("hdrget", ite(and(dom, c.ilt(c.idxLit(0), "(sl.len "+sl+")")), first, c.strLit("")), "Str")
+		t := c.name("hdrget", c.hdrGetTerm(st, args[0], args[1].T), "Str")
 		c.assume(f.curGuard, c.strFacts(t))
 		return Val{T: t, Typ: rt}
 	}
@@ -160,4 +152,18 @@ func (w *World) builtinModelTargets(c *Ctx, key string) []havocTarget {
 		return f(c)
 	}
 	return nil
+}
+
+// hdrGetTerm: http.Header.Get(k) over the map model: the first value stored
+// under the canonical key, or "".
+func (c *Ctx) hdrGetTerm(st *State, m Val, k string) string {
+	mt := m.Typ.Underlying().(*types.Map)
+	c.declFun("canonHeader", []string{"Str"}, "Str")
+	key := "(canonHeader " + k + ")"
+	d, vh := c.mapHeaps(mt)
+	dom := and(not(eq(m.T, "0")), "(select (select "+c.heapGet(st, d, c.heapSort[d])+" "+m.T+") "+key+")")
+	sl := "(select (select " + c.heapGet(st, vh, c.heapSort[vh]) + " " + m.T + ") " + key + ")"
+	h, srt := c.memHeap(types.Typ[types.String])
+	first := "(select (select " + c.heapGet(st, h, srt) + " (sl.base " + sl + ")) (sl.off " + sl + "))"
+	return ite(and(dom, c.ilt(c.idxLit(0), "(sl.len "+sl+")")), first, c.strLit(""))
 }
